@@ -6,7 +6,7 @@ CONSTANTS
   CS = {1,2}
   LMinAll = 0
   TS = {1,2,3}
-  ChemPool = 4
+  ChemPool = 3
   ChemLayout = "transposed_if_square"
   UnitAt = "return"
   ULoop = 1
